@@ -32,7 +32,7 @@ theorem toUpperCmp_L (lit v : Bytes) : toUpperCmp lit (L v) = toUpperCmp lit v :
   unfold toUpperCmp; rw [goUpper_LS]
 
 theorem searchKeyword_L (w : Bytes) : searchKeyword (L w) = searchKeyword w := by
-  unfold searchKeyword; rw [goUpper_LS]
+  rw [searchKeyword_eq, searchKeyword_eq]; unfold searchKeywordSpec; rw [goUpper_LS]
 
 theorem slice_LS (s : Bytes) (a b : Nat) : slice (L s) a b = (slice s a b).map L := by
   unfold slice
